@@ -623,6 +623,56 @@ func neutralKeys(r *mon.Run, c Case) {
 	run("sr25519.Verify(zero-value signature)", func() bool { return kp.PublicKey().Verify(st, &sr25519.Signature{}) })
 }
 
+// optionStructs: "all option structs" - pre-hash identifiers of every kind (registered hashes of all sizes, values the
+// crypto package does not know) in the option struct of every Ed25519 entry point. The documented reaction is an
+// error / false / an entry marked invalid; none of them may panic.
+func optionStructs(r *mon.Run, c Case) {
+	ids := []crypto.Hash{crypto.MD4, crypto.MD5, crypto.SHA1, crypto.SHA224, crypto.SHA256, crypto.SHA384, crypto.SHA512, crypto.MD5SHA1, crypto.RIPEMD160, crypto.SHA3_224, crypto.SHA3_256, crypto.SHA3_384, crypto.SHA3_512, crypto.SHA512_224, crypto.SHA512_256, crypto.BLAKE2s_256, crypto.BLAKE2b_256, crypto.BLAKE2b_384, crypto.BLAKE2b_512, crypto.Hash(20), crypto.Hash(21), crypto.Hash(63), crypto.Hash(64), crypto.Hash(255), crypto.Hash(1 << 20), ^crypto.Hash(0)}
+	exp, _ := ed25519.NewExpandedPublicKey(pub)
+	cv := cache.NewVerifier(cache.NewLRUCache(2))
+	for _, id := range ids {
+		for _, ml := range []int{0, 20, 32, 64, 80} {
+			m := make([]byte, ml)
+			for _, ctx := range []string{"", "c"} {
+				o := &ed25519.Options{Hash: id, Context: ctx}
+				run := func(name string, f func()) {
+					zzverifrt.Arm(5_000_000)
+					pan, msg := mon.Try(f)
+					zzverifrt.Arm(0)
+					r.Eval([]byte(fmt.Sprintf("opt|%s|%d|%d|%s", name, uint(id), ml, ctx)))
+					r.Hist("option-structs/" + name)
+					// the Verify* entry points turn an option-validation error into a panic carrying the library's own
+					// message ("ed25519: ..."), as their doc comments describe for the other option errors; anything else
+					// (a runtime error, a panic from another package) is not a documented reaction
+					if pan && !(strings.HasPrefix(name, "Verify") || name == "cache.Verifier.VerifyWithOptions") {
+						r.Violate("untrusted/option-struct/"+name+"/panic", fmt.Sprintf("Hash=%d message length %d context %q: %s", uint(id), ml, ctx, msg), c)
+					} else if pan && !strings.HasPrefix(msg, "ed25519: ") {
+						r.Violate("untrusted/option-struct/"+name+"/foreign-panic", fmt.Sprintf("Hash=%d message length %d context %q: %s", uint(id), ml, ctx, msg), c)
+					} else if pan {
+						r.Hist("documented-panic/option-validation")
+					}
+				}
+				run("PrivateKey.Sign(*Options)", func() { priv.Sign(nil, m, o) })
+				run("PrivateKey.Sign(crypto.Hash)", func() { priv.Sign(nil, m, id) })
+				run("VerifyWithOptions", func() { ed25519.VerifyWithOptions(pub, m, goodSig, o) })
+				run("VerifyExpandedWithOptions", func() { ed25519.VerifyExpandedWithOptions(exp, m, goodSig, o) })
+				run("BatchVerifier.AddWithOptions+Verify", func() {
+					bv := ed25519.NewBatchVerifier()
+					bv.AddWithOptions(pub, m, goodSig, o)
+					bv.AddExpandedWithOptions(exp, m, goodSig, o)
+					bv.Verify(nil)
+				})
+				run("cache.Verifier.VerifyWithOptions", func() { cv.VerifyWithOptions(pub, m, goodSig, o) })
+				run("cache.Verifier.AddWithOptions", func() {
+					bv := ed25519.NewBatchVerifier()
+					cv.AddWithOptions(bv, pub, m, goodSig, o)
+					bv.Verify(nil)
+				})
+			}
+		}
+	}
+}
+
 func main() {
 	r := mon.Start("C19", "table of ~70 byte-taking entry points (scalar/point/key/signature/proof decoders; Ed25519 single/expanded/batch/cached verification; signing-side option validation; ECVRF; X25519 and conversions; sr25519 decoders, verification and batch; h2c expanders and suites; Merlin operations; entropy readers) x lengths 0..nominal+40, 2*nominal, 128, 255..257, 1000 (+4 KiB, 70000, 1 MiB for message-like arguments) x contents {zeros, ff, valid prefix + junk, PRNG} + nil; receivers pre-loaded with a non-neutral value; per call: recover(), documented-panic table from the doc comments, wrong-length => failure, receiver neutral (where the code documents a reset) or unchanged, loop-tick budget 5e6 + 2e4/byte; non-trivial = (entry, length, fill); distinct = SHA-256 of it")
 	r.Workers = 1 // the loop-tick counter is process-global
@@ -637,6 +687,8 @@ func main() {
 			runOne(r, en, c)
 		} else if c.Entry == "neutral-state keys" {
 			neutralKeys(r, c)
+		} else if c.Entry == "option structs" {
+			optionStructs(r, c)
 		}
 		r.Finish()
 		return
@@ -683,6 +735,7 @@ func main() {
 		}
 	}
 	neutralKeys(r, Case{Entry: "neutral-state keys"})
+	optionStructs(r, Case{Entry: "option structs"})
 	r.Sample("case", Case{Entry: tbl[0].name, Len: 31, Fill: "ff"})
 	r.Sample("case", Case{Entry: "sr25519.KeyPair.UnmarshalBinary", Len: 96, Fill: "valid-prefix+junk"})
 	r.Sample("case", Case{Entry: "merlin ops(label=b,msg=b,size=len b)", Len: 1 << 20, Fill: "random"})
